@@ -46,6 +46,116 @@ type c07Case struct {
 	Gated *c07GatedSpec `json:"gated,omitempty"`
 	// Bucket schedule (check "bucket-gated"): see c07BucketGated
 	Bucket *c07BucketSpec `json:"bucket,omitempty"`
+	// Walk schedule (check "walk-vs-delete"): see c07WalkVsDelete
+	Walk *c07WalkSpec `json:"walk,omitempty"`
+}
+
+// c07WalkSpec (check "walk-vs-delete"): one client pages through the listing while another deletes and
+// adds keys between two of its pages
+type c07WalkSpec struct {
+	V2     bool   `json:"v2,omitempty"`
+	Victim string `json:"victim"` // the key deleted after the first page: last-of-page | next | first | none
+	Max    int    `json:"max"`
+}
+
+// c07WalkVsDelete: the walker's requests and the other client's requests are issued one after the
+// other (an interleaving like any other). Each page answers for the moment it is served: a key that
+// exists, untouched, from before the first page until after the last one is on exactly one page;
+// keys deleted or added in between are on at most one; nothing else is listed.
+func c07WalkVsDelete(k backends.Kind, spec c07WalkSpec) (ds []disc) {
+	st := backends.Must(k, backends.Options{})
+	defer st.Close()
+	if err := ensureBucket(st, "bk0"); err != nil {
+		panic(err)
+	}
+	how := fmt.Sprintf("backend=%s v2=%v victim=%s max-keys=%d: ", k, spec.V2, spec.Victim, spec.Max)
+	var stable []string
+	for i := 1; i <= 6; i++ {
+		key := fmt.Sprintf("p/k%d", i)
+		if r := put(st, "bk0", key, []byte("stable "+key)); r.Status != 200 {
+			panic("harness: " + r.String())
+		}
+		stable = append(stable, key)
+	}
+	seen := map[string]int{}
+	pos, victim := "", ""
+	for page := 1; page <= 12; page++ {
+		q := []string{"prefix", "p/", "max-keys", fmt.Sprint(spec.Max)}
+		if spec.V2 {
+			q = append(q, "list-type", "2")
+		}
+		if pos != "" {
+			if spec.V2 {
+				q = append(q, "continuation-token", pos)
+			} else {
+				q = append(q, "marker", pos)
+			}
+		}
+		doc, r := listDoc(st, "bk0", q...)
+		if doc == nil {
+			return dsc("walk-page-failed", how+"page %d (%v): %s", page, q, r)
+		}
+		var keys []string
+		for _, e := range doc.Contents {
+			seen[e.Key]++
+			keys = append(keys, e.Key)
+		}
+		if !doc.IsTruncated {
+			break
+		}
+		if len(keys) == 0 {
+			return dsc("walk-does-not-end", how+"page %d is empty and truncated", page)
+		}
+		switch {
+		case spec.V2:
+			pos = doc.NextContinuationToken
+		case doc.NextMarker != "":
+			pos = doc.NextMarker
+		default:
+			pos = keys[len(keys)-1]
+		}
+		if page == 1 {
+			// the other client, between the walker's first and second page
+			switch spec.Victim {
+			case "last-of-page":
+				victim = keys[len(keys)-1]
+			case "first":
+				victim = keys[0]
+			case "next":
+				for i, sk := range stable {
+					if sk == keys[len(keys)-1] && i+1 < len(stable) {
+						victim = stable[i+1]
+					}
+				}
+			}
+			if victim != "" {
+				if r := del(st, "bk0", victim); r.Status != 204 {
+					panic("harness: " + r.String())
+				}
+			}
+			if r := put(st, "bk0", "p/k25", []byte("added during the walk")); r.Status != 200 {
+				panic("harness: " + r.String())
+			}
+		}
+	}
+	for _, sk := range stable {
+		n := seen[sk]
+		switch {
+		case sk == victim && n > 1:
+			ds = append(ds, dsc("walk-repeats", how+"%q (deleted during the walk) is on %d pages", sk, n)...)
+		case sk != victim && n != 1:
+			ds = append(ds, dsc("walk-misses-stable-key", how+"%q exists, untouched, during the whole walk and is on %d pages (the other client deleted %q and added p/k25 after page 1); listed: %v", sk, n, victim, seen)...)
+		}
+		delete(seen, sk)
+	}
+	if seen["p/k25"] > 1 {
+		ds = append(ds, dsc("walk-repeats", how+"p/k25 (added during the walk) is on %d pages", seen["p/k25"])...)
+	}
+	delete(seen, "p/k25")
+	if len(seen) > 0 {
+		ds = append(ds, dsc("listed-phantom", how+"the walk lists keys nobody stored: %v", seen)...)
+	}
+	return ds
 }
 
 type c07BucketSpec struct {
@@ -1140,6 +1250,9 @@ func c07Replay(check string, raw json.RawMessage) ([]disc, error) {
 	if check == "bucket-gated" && rep.Case.Bucket != nil {
 		return c07Classify(rep.Case, c07Filter(c07BucketGated(rep.Case.Backend, rep.Case.Bucket.GateAt, rep.Case.Bucket.Recreate, false))), nil
 	}
+	if check == "walk-vs-delete" && rep.Case.Walk != nil {
+		return c07WalkVsDelete(rep.Case.Backend, *rep.Case.Walk), nil
+	}
 	if check == "gated" {
 		ds, _, _ := c07Gated(rep.Case)
 		return c07Classify(rep.Case, c07Filter(ds)), nil
@@ -1179,7 +1292,7 @@ func TestC07(t *testing.T) {
 		Rule: "cases = (backend, concurrent client programs | gated schedule); random: 2-16 client goroutines run put(self-describing unique body)/get/head/delete/copy/list (and versioned puts, concurrent part uploads) over 1-3 keys against the in-process handler, " +
 			"every operation logged with invocation/return instants; oracles: every GET body is in full one written body with matching ETag/Content-Length, per-key history (copy = read(src) then write(dst)) linearizable against a register model (porcupine), " +
 			"listed (key,ETag) written before the list returned, distinct version IDs whose content is that upload, completed multipart object = acknowledged parts, final reads join the history; gated: a slow uploader (body gated at drawn offsets) or slow reader (response writes gated) " +
-			"is held while other operations run to completion, same oracles; plus the same workloads under a -race build; non-trivial = >= 2 overlapping operations of different clients on one key, one of them a write; distinct by (backend, programs)",
+			"is held while other operations run to completion, same oracles; a client paging through the listing while another deletes and adds keys between its pages (keys untouched during the walk are on exactly one page); plus the same workloads under a -race build; non-trivial = >= 2 overlapping operations of different clients on one key, one of them a write; distinct by (backend, programs)",
 		Replay: c07Replay,
 		Run:    c07Run,
 	})
@@ -1322,6 +1435,18 @@ func c07Run(t *testing.T, c *evid.Collector) {
 func c07RunBucket(c *evid.Collector, kinds []backends.Kind) {
 	if evid.Shard() != 0 {
 		return
+	}
+	for _, k := range kinds {
+		for _, v2 := range []bool{false, true} {
+			for _, victim := range []string{"none", "last-of-page", "next", "first"} {
+				for _, max := range []int{1, 2, 3} {
+					spec := c07WalkSpec{V2: v2, Victim: victim, Max: max}
+					cs := c07Case{Backend: k, Keys: 6, Walk: &spec}
+					c.Case(evid.FP("walk-vs-delete", mustJSON(cs)), victim != "none", func() interface{} { return cs }, "backend:"+string(k), "check:walk-vs-delete", "src:fixed")
+					report(c, "walk-vs-delete", c07WalkVsDelete(k, spec), c07Replayable{Case: cs})
+				}
+			}
+		}
 	}
 	for _, k := range kinds {
 		if k.IsSingle() {
